@@ -14,7 +14,10 @@ def concretisations(rng, extra):
     """(c1, c2) per field: plain, neighbours of the wildcard constants, random full range"""
     out = [{"sid": (0x1111, 0x2222), "iid": (1, 2), "maj": (1, 2), "min": (1, 2)},
            {"sid": (0, 0xFFFF), "iid": (0, 0xFFFE), "maj": (0, 0xFE), "min": (0, 0xFFFFFFFE)},
-           {"sid": (0xFFFE, 0xFFFF), "iid": (0xFFFE, 0), "maj": (0xFE, 1), "min": (0xFFFFFFFE, 0x80000000)}]
+           {"sid": (0xFFFE, 0xFFFF), "iid": (0xFFFE, 0), "maj": (0xFE, 1), "min": (0xFFFFFFFE, 0x80000000)},
+           # concrete values that look like the wildcard of another, narrower field (0xFF, 0xFFFF are ordinary instance ids / minors)
+           {"sid": (0x00FF, 0xFFFF), "iid": (0x00FF, 2), "maj": (0x0F, 1), "min": (0xFF, 0xFFFF)},
+           {"sid": (0xFF, 0xFF00), "iid": (3, 0x00FF), "maj": (1, 0x7F), "min": (0xFFFF, 0xFFFFFF)}]
     for _ in range(extra):
         def two(bits, w):
             a = rng.getrandbits(bits)
